@@ -166,6 +166,27 @@ func corpus() []Scenario {
 		[]Decision{{T: "call", C: 0}, until("c0", "rpc.retry.select"), {T: "res", M: 1001, V: 5}, fin("n0"), fin("c0"),
 			{T: "call", C: 1}, until("c1", "rpc.retry.select"), {T: "acks", IDs: []int64{1001, 1002}}, {T: "fire", C: 1},
 			step("c1"), step("c1"), step("c1"), step("c1"), {T: "fclose"}, step("x0"), fin("c1")}, 1})
+	// C26: the caller's context ends by DEADLINE (ctx.Err() = DeadlineExceeded) in the retry loop / in the wait phase:
+	// exactly one drop, Do returns the context error
+	r = append(r, Scenario{"corpus:deadline-in-loop", onePlan(3),
+		[]Decision{{T: "call", C: 0}, until("c0", "rpc.retry.select"), {T: "expire", C: 0}, fin("c0")}, 1})
+	r = append(r, Scenario{"corpus:deadline-after-ack", onePlan(3), cat(toWait, Decision{T: "expire", C: 0}, fin("c0")), 1})
+	r = append(r, Scenario{"corpus:deadline-before-send", onePlan(3, SendCtx),
+		[]Decision{{T: "call", C: 0}, until("c0", "rpc.retry.ackwait"), {T: "expire", C: 0}, fin("c0")}, 1})
+	r = append(r, Scenario{"corpus:deadline-during-resend", onePlan(3, SendOk, SendCtx),
+		[]Decision{{T: "call", C: 0}, until("c0", "rpc.retry.select"), {T: "fire", C: 0}, until("c0", "rpc.retry.timer.go"), {T: "expire", C: 0}, fin("c0")}, 1})
+	// C24: the handler is inside Decode, the caller is cancelled and reaches the claim-or-await point: it must
+	// BLOCK there (probe) until the handler is done
+	r = append(r, Scenario{"corpus:claimed-cancel-await-probe", onePlan(3), cat(toWait,
+		Decision{T: "res", M: id, V: 786}, until("n0", "rpc.handler.claimed"), Decision{T: "cancel", C: 0}, until("c0", "rpc.do.await"),
+		Decision{T: "probe", A: "c0"}, fin("c0"), fin("n0"), fin("c0")), 1})
+	r = append(r, Scenario{"corpus:claimed-close-await-probe", onePlan(3), cat(toWait,
+		Decision{T: "res", M: id, V: 787}, until("n0", "rpc.handler.claimed"), Decision{T: "fclose"}, step("x0"), until("c0", "rpc.do.await"),
+		Decision{T: "probe", A: "c0"}, fin("c0"), fin("n0"), fin("c0")), 1})
+	// retransmission twice in a row: the timer must be pending again after each retransmission
+	r = append(r, Scenario{"corpus:two-retransmissions", onePlan(3),
+		[]Decision{{T: "call", C: 0}, until("c0", "rpc.retry.select"), {T: "fire", C: 0}, until("c0", "rpc.retry.select"), {T: "fire", C: 0},
+			until("c0", "rpc.retry.select"), {T: "fire", C: 0}, fin("c0")}, 1})
 	// C26: cancel before the first transmission completes (ctx error from send): no drop
 	r = append(r, Scenario{"corpus:cancel-before-send", onePlan(3, SendCtx),
 		[]Decision{{T: "call", C: 0}, until("c0", "rpc.retry.ackwait"), {T: "cancel", C: 0}, fin("c0")}, 1})
@@ -230,6 +251,8 @@ func injections(sc Scenario) [][]Decision {
 		{{T: "res", M: id, Bad: true}, until("", "rpc.handler.claimed"), {T: "fclose"}},
 		{{T: "err", M: id, Code: 304}, until("", "rpc.handler.claimed"), {T: "cancel", C: 0}},
 		{{T: "res", M: id, V: 97}, until("", "rpc.handler.claimed"), {T: "fire", C: 0}},
+		{{T: "expire", C: 0}},
+		{{T: "res", M: id, V: 96}, until("", "rpc.handler.claimed"), {T: "expire", C: 0}, until("c0", "rpc.do.await"), {T: "probe", A: "c0"}},
 		{{T: "acks", IDs: []int64{id + 5000, id, id}}, {T: "fire", C: 0}},
 		{{T: "acks", IDs: []int64{id + 5000, id + 5001, id}}, {T: "fclose"}},
 	}
@@ -327,7 +350,14 @@ func randomRun(rng *hx.Rand) (*Sim, []string, Scenario) {
 				s.Apply(Decision{T: "acks", IDs: ids})
 			}
 		case r < 85:
-			s.Apply(Decision{T: "cancel", C: rng.Intn(n)})
+			switch {
+			case rng.Chance(1, 3):
+				s.Apply(Decision{T: "expire", C: rng.Intn(n)})
+			case rng.Chance(1, 4) && len(live) > 0:
+				s.Apply(Decision{T: "probe", A: fmt.Sprintf("c%d", live[rng.Intn(len(live))])})
+			default:
+				s.Apply(Decision{T: "cancel", C: rng.Intn(n)})
+			}
 		case r < 97:
 			if len(live) > 0 {
 				s.Apply(Decision{T: "fire", C: live[rng.Intn(len(live))]})
